@@ -25,11 +25,18 @@ CONF = ['absent', 'none', 'value', 'raise_val', 'raise_type_inner', 'attr_attrer
         'attr_other', 'raise_attrerr_inner', 'value_falsy',
         # a TypeError raised directly in the body; a staticmethod; a plain
         # function stored on the instance (both are called with the interface only)
-        'raise_type_direct', 'static_value', 'instance_func_value']
+        'raise_type_direct', 'static_value', 'instance_func_value',
+        # the adaptee is a class object: __conform__ comes from its metaclass,
+        # is a classmethod, or is the plain function meant for its instances
+        # (calling that with the interface alone is the TypeError that counts
+        # as "no __conform__")
+        'meta_value', 'meta_none', 'meta_raise_val', 'classmethod_value', 'class_plain_function']
+CLASS_ADAPTEE = ('meta_value', 'meta_none', 'meta_raise_val', 'classmethod_value', 'class_plain_function')
 # 'nested' = a hook that itself adapts something else (which reaches the hook
 # stage again) before declining
 # 'poplast' / 'clear' = a hook that uninstalls hooks while the hooks are being called
-HOOK = ['none', 'v', 'raise', 'falsy', 'nested', 'poplast', 'clear']
+# 'v_clear' / 'raise_clear' = a hook that empties the list and then answers / raises
+HOOK = ['none', 'v', 'raise', 'falsy', 'nested', 'poplast', 'clear', 'v_clear', 'raise_clear']
 ALT = ['absent', 'value', 'none_pos', 'value_kw', 'none_kw']
 # how the interface gets its __adapt__: the standard one ('std'; 'std+method'
 # = with an unrelated interfacemethod, which also creates a custom metaclass),
@@ -38,7 +45,9 @@ ALT = ['absent', 'value', 'none_pos', 'value_kw', 'none_kw']
 # ('inh+method'), or on both with the child overriding ('override')
 ADAPT = ['std', 'std+method'] + [k + s for k in ('c_none', 'c_value', 'c_raise')
                                  for s in ('', ':inh', ':inh+method', ':override')]
-PROVIDED = ['no', 'class', 'direct']
+# 'slots-direct': an instance without __dict__ whose class reserves a slot for
+# __provides__, declared with directlyProvides
+PROVIDED = ['no', 'class', 'direct', 'slots-direct']
 
 
 def make_iface(adapt):
@@ -154,6 +163,31 @@ def make_obj(I, conf, provided):
             LOG.append('conform-get')
             raise KeyError('x')
         ns['__conform__'] = property(g)
+    if conf in CLASS_ADAPTEE:
+        if provided == 'slots-direct':
+            return None
+        mns = {}
+        if conf == 'meta_value':
+            mns['__conform__'] = mk(lambda: 'CONFORMED')
+        elif conf == 'meta_none':
+            mns['__conform__'] = mk(lambda: None)
+        elif conf == 'meta_raise_val':
+            def b():
+                raise ValueError('c')
+            mns['__conform__'] = mk(b)
+        elif conf == 'classmethod_value':
+            ns['__conform__'] = classmethod(mk(lambda: 'CONFORMED'))
+        else:
+            ns['__conform__'] = mk(lambda: 'CONFORMED-BY-AN-INSTANCE-METHOD')
+        Meta = type('Meta', (type,), mns)
+        K = Meta('K', (), ns)
+        if provided == 'class':
+            implementer(I)(Meta)
+        elif provided == 'direct':
+            directlyProvides(K, I)
+        return K
+    if provided == 'slots-direct':
+        ns['__slots__'] = ('__provides__',) + (('__conform__',) if conf == 'instance_func_value' else ())
     K = type('K', (), ns)
     if provided == 'class':
         implementer(I)(K)
@@ -165,7 +199,7 @@ def make_obj(I, conf, provided):
                 LOG.append('conform-wrong-arg')
             return 'CONFORMED'
         o.__conform__ = iconform
-    if provided == 'direct':
+    if provided in ('direct', 'slots-direct'):
         directlyProvides(o, I)
     return o
 
@@ -186,6 +220,12 @@ def make_hook(kind, i, I, obj):
         if kind == 'clear':
             del adapter_hooks[:]
             return None
+        if kind == 'v_clear':
+            del adapter_hooks[:]
+            return 'H%d' % i
+        if kind == 'raise_clear':
+            del adapter_hooks[:]
+            raise Boom('hook%d' % i)
         if kind == 'nested':
             # look at some unrelated object first; it cannot be adapted either,
             # and that adaptation runs through the hooks as well
@@ -208,10 +248,13 @@ def expected(conf, provided, hooks, alt, adapt):
     adapt = 'std' if adapt.startswith('std') else adapt.partition(':')[0]
     lg = []
     if conf in ('none', 'value', 'raise_val', 'raise_type_inner', 'raise_attrerr_inner', 'value_falsy',
-                'raise_type_direct', 'static_value', 'instance_func_value'):
+                'raise_type_direct', 'static_value', 'instance_func_value',
+                'meta_value', 'meta_none', 'meta_raise_val', 'classmethod_value'):
         lg.append('conform')
-        if conf in ('value', 'static_value', 'instance_func_value'):
+        if conf in ('value', 'static_value', 'instance_func_value', 'meta_value', 'classmethod_value'):
             return ('ok', 'CONFORMED', lg)
+        if conf == 'meta_raise_val':
+            return ('exc', 'ValueError', lg)
         if conf == 'raise_type_direct':
             return ('exc', 'TypeError', lg)
         if conf == 'value_falsy':
@@ -240,8 +283,13 @@ def expected(conf, provided, hooks, alt, adapt):
             lg.append('hook%d' % i)
             if h == 'poplast' and live:
                 live.pop()
-            if h == 'clear':
+            if h in ('clear', 'v_clear', 'raise_clear'):
                 del live[:]
+            if h == 'v_clear':
+                res = 'H%d' % i
+                break
+            if h == 'raise_clear':
+                return ('exc', 'Boom', lg)
             if h == 'v':
                 res = 'H%d' % i
                 break
@@ -271,6 +319,8 @@ def eval_case(case):
     I = make_iface(adapt)
     OTHER[0] = InterfaceClass('J', (Interface,), {'__module__': wmod()})
     obj = make_obj(I, conf, provided)
+    if obj is None:
+        return None, None
     saved = list(adapter_hooks)
     adapter_hooks[:] = [make_hook(k, i, I, obj) for i, k in enumerate(hooks)]
     del LOG[:]
@@ -375,6 +425,9 @@ def evaluate(arg):
         n += 1
         if kind == 'call':
             v, exp = eval_case(case)
+            if exp is None:
+                n -= 1
+                continue
             outcomes.add((exp[0], str(exp[1]), tuple(exp[2])))
         else:
             v = eval_registry(case)
@@ -400,7 +453,11 @@ def run(ctx):
     hooklists = [()]
     for k in range(1, maxh + 1):
         hooklists += list(itertools.product(HOOK, repeat=k))
-    cases = [('call', c) for c in itertools.product(ADAPT, CONF, PROVIDED, hooklists, ALT)]
+    # an interface with a custom __adapt__ never reaches the hooks: three hook
+    # lists are enough to see that none is called
+    cases = [('call', c) for c in itertools.product(ADAPT[:2], CONF, PROVIDED, hooklists, ALT)]
+    cases += [('call', c) for c in itertools.product(ADAPT[2:], CONF, PROVIDED,
+                                                      [(), ('v',), ('raise', 'v')], ALT)]
     cases += [('reg', c) for c in itertools.product(
         ['empty', 'R0', 'R1', 'extends', 'none-factory', 'named-only', 'None-required'],
         (False, True), ('absent', 'value'))]
@@ -420,5 +477,5 @@ def run(ctx):
     ctx.sample(dict(case=cases[-3]))
     return finish(
         ctx, 'model_checking',
-        'full product of __conform__ behaviours x provided (class/direct/no) x all hook lists up to length %d x alternate forms x custom __adapt__, each executed as I(obj[, alternate]) on real objects and compared (result, exception type, exact call log) with an interpreter of the documented order; plus registry adapter_hook cases compared with queryAdapter' % maxh,
+        'full product of __conform__ behaviours x adaptee kinds (instance, instance without __dict__, class object) x provided (class/direct/no) x all hook lists up to length %d x alternate forms x custom __adapt__, each executed as I(obj[, alternate]) on real objects and compared (result, exception type, exact call log) with an interpreter of the documented order; plus registry adapter_hook cases compared with queryAdapter' % maxh,
         'complete Cartesian product; distinct_nontrivial = distinct expected (result, call log) outcomes')
